@@ -161,7 +161,7 @@ def generate(rng, tier):
             # all histories with at least two sighash steps around a mutator, plus a sample of the rest
             core = [s for s in seqs if s[0] >= 10 and s[2] >= 10 and s[1] < 10]
             rest = [s for s in seqs if not (s[0] >= 10 and s[2] >= 10 and s[1] < 10)]
-            seqs = core + rng.sample(rest, 450)
+            seqs = core + rng.sample(rest, 330)
         if tier == "thorough" and n == 4:
             # every history that ends in a sighash step and has an earlier one (a cache can only go stale after it was filled), others sampled
             interesting = lambda s: s[3] >= 10 and any(k >= 10 for k in s[:3])
@@ -214,13 +214,23 @@ def generate(rng, tier):
         Hs(["an.1.777.76a914+r:09:20+88ac", "sh.%d.1.76a9.1000" % f, "sh.%d.1..1000" % f, "sg.%d.1.ac.2000" % f, "an.0.5.-", "an.2.-.ab51",
             "sh.%d.1..0" % f, "fj", "sh.%d.1.76a9.3000" % f, "sh.%d.1..3000" % f, "fc", "sh.%d.1.ac.18446744073709551615" % f, "fk", "an.1.9.6a", "sh.%d.1..4000" % f,
             "sw", "sh.%d.1..4000" % f, "cl", "sk.%d.1.76a9.5" % f, "fb", "sh.%d.1..1000" % f, "sh.65.0.76a9.1"], t33)
+    # overwriting an object in place: a.clone_from(&b), a = b.clone(), mem::swap, with a warm (served a sighash) and b warm or cold
+    for f in [65, 66, 67, 193, 1]:
+        sh = "sh.%d.0.76a9.1000" % f
+        for ow in ["cf", "as", "ms"]:
+            Hs([sh, "sh.65.0.76a9.1", "fk", "so.0." + out_fields(rng, 93), "si.0." + in_fields(rng, 94), sh, "sw", ow, sh, "sh.65.0.76a9.1", "sg.%d.0.ac.9" % f, "sw", sh], t33)   # b warm
+            Hs(["fk", "so.0." + out_fields(rng, 95), "ai." + in_fields(rng, 96), "sw", sh, "sh.65.0.76a9.1", ow, sh, "sh.65.0.76a9.1", "sh.193.0.76a9.1", "sh.66.0.76a9.1"], t33)      # b cold
+    # inputs with the null outpoint (and each half of it) through the construction API, at the signed index and elsewhere
+    for f in [65, 67, 195, 1, 131]:
+        Hs(["pi.r:00:32.4294967295.51.4294967295", "sh.%d.0.76a9.5" % f, "sg.%d.0.76a9.6" % f, "ai.r:00:32.0..0", "ii.1.l:7:32.4294967295..4294967294",
+            "sh.%d.0.76a9.5" % f, "sh.%d.1.76a9.5" % f, "sh.%d.2.76a9.5" % f, "ai.r:00:32.4294967295..0", "sh.65.0.76a9.5", "sh.%d.6.76a9.5" % f], t33)
     # other starting shapes for the short histories
     for (nin, nout) in [(1, 1), (3, 1), (1, 3)]:
         t = G.mk_tx(rng, nin, nout).hex()
         for s in rng.sample(list(itertools.product(range(14), repeat=3)), 60 if tier == "quick" else 300):
             Hs([A[k] for k in s], t)
     # random long histories
-    for _ in range(70 if tier == "quick" else 500):
+    for _ in range(55 if tier == "quick" else 500):
         t = base_tx(rng).hex()
         Hs(random_history(rng, rng.randrange(5, 61)), t)
     # API misuse: out-of-range positions panic (also after a sighash call)
